@@ -82,6 +82,9 @@ func PoolSimBegin(c PoolConfig, seed uint64) {
 }
 func PoolSimEnd() (fresh, same, cross int) { return poolEnd() }
 
+// CurrentPoolConfig returns the policy in force (for runs that continue a pool session).
+func CurrentPoolConfig() PoolConfig { return poolCfg }
+
 // PoolSimSet switches the policy of the simulated pool without emptying it (a history of
 // calls under changing policies shares one pool state, like a long-lived process does).
 //go:norace
